@@ -21,14 +21,14 @@ CHECKS = {
         text="TLC checks NoVerdictOnUnreadable on the ACV model for every entry point / class / channel mode (and refutes it "
              "for the named deviation SwallowDecodeError); real texts whose unreadability is established independently of the "
              "code under test (a fresh encoding/json decoder fails, or a direct json-gold Flatten fails) are run through all "
-             "validating entry points and the recorded traces are validated by TLC with the data class logged, so a report "
-             "for an unreadable text is not a behaviour of the spec.",
+             "validating entry points (also as the first call of a fresh process) and the recorded outcomes are validated by TLC "
+             "with the data class logged, so a report for an unreadable text is not a behaviour of the spec.",
         ref="DESIGN.md §6 C04", technique="TLA+ model checking (TLC) + trace validation of real executions"),
     "C17": dict(
         text="TLC checks OutcomeIsReportOrError / NoNodesConforms and liveness EveryCallReturns (weak fairness) on the ACV "
              "model; seeded structured mutations of all fixtures plus raw bytes are run through every public entry point under "
-             "recover() and a watchdog, and each recorded trace (events, close, outcome) must be a behaviour of the model - "
-             "panic and timeout are not outcomes of any spec action. The byte space is explored, not enumerated.",
+             "recover() and a watchdog, and each recorded outcome must be a behaviour of the model - panic and timeout are not outcomes of any spec "
+             "action; a sample of inputs is also run as the first call of a fresh process. The byte space is explored, not enumerated.",
         ref="DESIGN.md §6 C17", technique="TLA+ model checking (TLC) + trace validation of fuzzed real executions"),
     "C09": dict(
         text="TLC checks HistoryIndependent and HandlesOnlyGrowByCompile on the ACV model (and refutes them when Eval results "
@@ -52,8 +52,10 @@ CHECKS = {
              "state (depth<=2 over 2 atoms: 15578; depth<=1 over 3 atoms; quantified fragment x 10 contexts on a world holding "
              "every assignment x 81 child multisets; thorough: depth<=2 over 3 atoms, 227k), proves 'some branch fires <=> ~Sat' "
              "and the spelling invariants on each, and emits one implementation test per state; the tests are rendered with "
-             "24 documented constraint kinds and run through Validate and CompileProfile+ValidateCompiled, comparing the set "
-             "of reported target nodes. Random deep formulas on random graphs are validated by TLC (LogicTrace) against Sat.",
+             "37 documented constraint kinds and run through Validate and CompileProfile+ValidateCompiled, comparing the set "
+             "of reported target nodes. Random deep formulas on random graphs are validated by TLC (LogicTrace) against Sat. "
+             "spec/Atoms.tla gives the documented meaning of 21 atomic constraints on properties with 0..4 values (and a "
+             "transcription of their negated twins); its 42 cases x 256 value-set pairs are replayed the same way.",
         ref="DESIGN.md §6 C01", technique="TLA+ transcription + exhaustive small-scope enumeration (TLC) replayed into the code; TLC trace validation of random cases"),
     "C16": dict(
         text="spec/Paths.tla transcribes the committed PEG (plus end of input) as a deterministic recogniser over a 14-symbol "
@@ -102,8 +104,10 @@ CHECKS = {
              "injective on every uniform tree shape (depth<=3, fan-out<=3, with/without locations) and refutes it for a node "
              "kind with two array slots; real reports from profiles built for several traces per result, several sub-results "
              "per trace, nesting depth<=4, three severities and lexical locations are projected to trees and validated by TLC "
-             "(ReportTrace.tla): each @id equals its positional id and is unique in the document, focus nodes are graph node "
-             "ids, validation names / 'nested', non-empty message and trace, component and resultPath on every trace.",
+             "(ReportTrace.tla): one instance encoding one report node, every typed node has an @id and all @ids of the document "
+             "are pairwise distinct, focus nodes are graph node ids, validation names / 'nested', non-empty message and trace, "
+             "component and resultPath on every trace; the reports the `acv` binary prints and writes go through the same "
+             "trace spec.",
         ref="DESIGN.md §6 C12", technique="TLA+ model of the id scheme (TLC) + TLC trace validation of real reports"),
     "C14": dict(
         text="spec/Graph.tla defines Location(n) from lexical entries and source-file information; TLC enumerates scenarios "
@@ -149,13 +153,16 @@ CHECKS = {
              "(12-40 repetitions, 3-12 processes, 8-16 goroutines per input), which detects an order dependence over k keys with "
              "probability 1-(1/k!)^(N-1)."),
     "C18": dict(
-        text="spec/Cli.tla is the state machine of the output path under `acv validate` runs (to file / to stdout, 3 input pairs "
-             "with reports of different length, failing runs) interleaved with external remove / overwrite (empty, shorter, "
-             "longer); TLC checks that the file holds exactly the report after a run and that failures print no report "
-             "(refuted for open-without-truncate) and enumerates every history of 3 (quick) / 4 (thorough) steps; the histories "
-             "are replayed with the real binary built from /repo/cmd and file bytes / stdout / exit status compared with the "
-             "library's output from a separate process (dateCreated masked); generate and normalize are compared with the "
-             "library on fixture inputs; unwritable path and argument errors must fail.",
+        text="spec/Cli.tla is the state machine of the output path under the `acv` subcommands: validate (to file / to stdout, 3 "
+             "input pairs with reports of different length, failing runs), generate, normalize, compile, help, an unknown "
+             "command, wrong argument counts, missing and broken input files, interleaved with external remove / overwrite "
+             "(empty, shorter, longer) / litter next to the path / the path being a directory; TLC checks that the file holds "
+             "exactly the report after a run (refuted for open-without-truncate), that failures print no report, that a report "
+             "reaches stdout only from validate without an output path and that only validate-to-file ever changes the path, and "
+             "enumerates every history of 3 steps (quick; thorough: simulated histories of 4); the histories are replayed with "
+             "the real binary built from /repo/cmd and file bytes / stdout / exit status compared with the library's output "
+             "from a separate process (dateCreated masked); generate and normalize are also compared with the library on "
+             "fixture inputs; an unwritable path must fail.",
         ref="DESIGN.md §6 C18", technique="TLA+ state machine of the output file (TLC) + exhaustive history replay with the real binary"),
 }
 
